@@ -87,6 +87,7 @@ class Exec(ExprMixin, CallMixin):
         self.obligations: list[Obligation] = []
         self.run: Run | None = None
         self.cur_func = ""
+        self.spec_depth = 0  # >0: evaluating contract text (specs are total by convention: no safety obligations)
         self.merge_depth = 0  # >0: inside a RecFunction body, no forking allowed
         self.assumed_used: set = set()
         self.external_used: set = set()
@@ -113,9 +114,11 @@ class Exec(ExprMixin, CallMixin):
         if run.pos < len(run.trace):
             choice = run.trace[run.pos][0]
         else:
-            ft = feasible(run.pc, c)
-            ff = feasible(run.pc, z3.Not(c))
+            ft = feasible(run.pc + run.ctx, c)
+            ff = feasible(run.pc + run.ctx, z3.Not(c))
             if not ft and not ff:
+                if run.ctx:
+                    return True  # dead operand of a short-circuit expression: its value is irrelevant
                 raise Infeasible()
             if ft and ff:
                 run.trace.append([True, True])
@@ -130,6 +133,14 @@ class Exec(ExprMixin, CallMixin):
         c = simp(cond)
         if z3.is_true(c):
             return
+        if self.merge_depth > 0:
+            # under a binder / inside a spec function body: the fact is local to that scope
+            self.run.ctx.append(c)
+            return
+        if self.run.ctx:
+            c = simp(z3.Implies(z3.And(self.run.ctx), c))
+            if z3.is_true(c):
+                return
         if z3.is_false(c):
             raise Infeasible()
         self.run.pc.append(c)
@@ -142,12 +153,14 @@ class Exec(ExprMixin, CallMixin):
         n = self.ob_counter.get(base, 0)
         self.ob_counter[base] = n + 1
         name = f"{base}#{n}"
-        ob = Obligation(name=name, kind=kind, pc=list(self.run.pc), goal=g, func=self.cur_func, lineno=lineno,
+        ob = Obligation(name=name, kind=kind, pc=list(self.run.pc) + list(self.run.ctx), goal=g, func=self.cur_func, lineno=lineno,
                         note=note, carries_property=carries, inputs=dict(self.input_syms))
         self.obligations.append(ob)
 
     def safety(self, cond, what, lineno=0):
         """A run-time error condition of Python: must be impossible (cond must hold) on this path."""
+        if self.merge_depth > 0 or self.spec_depth > 0:
+            return
         c = simp(cond)
         if z3.is_true(c):
             return
@@ -156,6 +169,8 @@ class Exec(ExprMixin, CallMixin):
 
     def maybe_raise(self, cond_ok, exc_cls, lineno=0, msg=None):
         """Python raises exc_cls unless cond_ok. Forks: the exceptional edge is followed like any other."""
+        if self.merge_depth > 0:
+            return
         if self.decide(cond_ok):
             return
         raise RaiseSig(VExc(exc_cls, msg))
@@ -504,7 +519,9 @@ class Exec(ExprMixin, CallMixin):
                     # first assigned inside the loop and only used there: leave undefined
                     continue
                 raise Unsupported(f"loop at line {st.lineno} assigns {name!r}: give its type in the contract's types")
-            fr.assign(name, ty.fresh(name))
+            nv = ty.fresh(name)
+            self.on_fresh(nv)
+            fr.assign(name, nv)
         for path in sorted(mutated | attrs):
             try:
                 cur = self.eval(ast.parse(path, mode="eval").body, fr)
@@ -549,10 +566,13 @@ class Exec(ExprMixin, CallMixin):
         mod = self.spec_module(contract.module)
         sf = Frame(mod, FuncInfo(f"{contract.module}::{contract.cls.__name__}.{fn_node.name}", mod, fn_node), is_spec=True)
         sf.env.update(args)
+        self.spec_depth += 1
         try:
             self.exec_block(fn_node.body, sf)
         except ReturnSig as r:
             return r.value
+        finally:
+            self.spec_depth -= 1
         raise Unsupported(f"spec {fn_node.name} of {contract.target} returns nothing")
 
     def _check_inv(self, contract, inv, fr, extra, label, lineno):
